@@ -202,9 +202,6 @@ func runC09(cfg *config, res *monitor.Result) {
 	classes := map[string]int64{}
 	var evals int64
 	for _, t := range cfg.targets(true) {
-		if len(t.pkg.Exts[t.md.FullName()]) > 0 {
-			continue // extendable types with declared extensions: content-level defects listed for C04/C05 dominate
-		}
 		g := cfg.gen(t)
 		g.NoExt = true
 		r := monitor.NewRand(cfg.seed, "c09", t.pkg.GoPkg, string(t.md.FullName()))
@@ -286,7 +283,14 @@ func runC09(cfg *config, res *monitor.Result) {
 					if cl == nil {
 						continue
 					}
-					obj = cl
+					// what the clone contains is the owning runtime's business (C11; gogo's merge e.g. does
+					// not carry a proto3 -0.0 over): the model continues from what the clone really holds
+					m2, err := t.pkg.ToDynamic(cl)
+					if err != nil {
+						op = nops
+						continue
+					}
+					obj, model = cl, m2
 					trace = append(trace, "Clone")
 				case c == 12:
 					check = "MarshalTo"
@@ -426,9 +430,6 @@ func runC09Concurrent(cfg *config, res *monitor.Result) {
 	var mu sync.Mutex
 	ci := 0
 	for _, t := range cfg.targets(true) {
-		if len(t.pkg.Exts[t.md.FullName()]) > 0 {
-			continue
-		}
 		g := cfg.gen(t)
 		g.NoExt = true
 		model := g.Random(t.md).Msg
